@@ -113,8 +113,27 @@ Definition join_sem (ty : string) (on : arow -> dv) (lc rc : list nat) (L R : li
 (** ** the meaning of an operator applied to the meanings of its arguments; [None] where the plan
        cannot be built (an expression mentions a column its input does not have) *)
 Definition keys_in (ks : list okey) (c : list nat) : bool := forallb (fun k => inclb (fst (fst k)) c) ks.
+(** projection: the output columns are numbered by position (the semantics is used for the equivalence of
+    two plans under the same projection, not for what stands above it) *)
+Fixpoint exprs_of (l : list sem) : option (list (list nat * (arow -> dv))) :=
+  match l with
+  | [] => Some []
+  | MExpr s f :: r => match exprs_of r with Some t => Some ((s, f) :: t) | None => None end
+  | _ => None
+  end.
+Definition proj_row (es : list (list nat * (arow -> dv))) (r : arow) : arow :=
+  combine (seq 0 (List.length es)) (map (fun e => snd e r) es).
 Definition op_sem (op : string) (vs : list sem) : option sem :=
   if String.eqb op "list" then Some (MList vs)
+  else if String.eqb op "proj" then
+    match vs with
+    | [MList es; MRel c rows] =>
+        match exprs_of es with
+        | Some fs => if forallb (fun e => inclb (fst e) c) fs then Some (MRel (seq 0 (List.length fs)) (map (proj_row fs) rows)) else None
+        | None => None
+        end
+    | _ => None
+    end
   else match vs with
   | [MExpr s f; MExpr t g] => if String.eqb op "and" then Some (MExpr (s ++ t) (and3f f g)) else None
   | [MRel c _] => if String.eqb op "empty" then Some (MRel c []) else None
@@ -173,6 +192,12 @@ Definition wf_sem (s : sem) : Prop :=
   | MRel c rows => wf_rel c rows
   | MExpr sup f => reads_only sup f
   | MKeys ks => Forall (fun k => reads_only (fst (fst k)) (snd (fst k))) ks
+  | MList l => (fix all (l : list sem) : Prop :=
+                  match l with
+                  | [] => True
+                  | MExpr sup f :: r => reads_only sup f /\ all r
+                  | _ :: r => all r
+                  end) l
   | _ => True
   end.
 Definition env_ok (env : string -> sem) : Prop := forall v, wf_sem (env v).
